@@ -45,6 +45,7 @@ class State:
     mem_seen = 0
     mem_fired = 0
     armed = False
+    record = None  # list collecting (point number, function name) of the outermost limited call (dry runs)
     budget = 250000  # delivery points after which a limited call is killed anyway (the virtual time limit)
 
 
@@ -54,6 +55,8 @@ def _point(code):
         return
     c = st[-1]
     c.n += 1
+    if State.record is not None and len(st) == 1:
+        State.record.append((c.n, code.co_name))
     if (c.kill_at is not None and c.n == c.kill_at and not c.killed) or (c.n >= State.budget and not c.killed):
         c.killed = True
         e = Interrupt('vlimiter kill')
@@ -207,6 +210,7 @@ def reset(plan=None):
     State.mem_plan = None
     State.mem_seen = 0
     State.mem_fired = 0
+    State.record = None
     _disarm()
 
 
